@@ -94,7 +94,7 @@ def check_no_degradation(c, desc, groups, snaps, final, opts, E, n, fixed):
                                 if eps[i] > vt:
                                     # violated beyond violation_tolerance: the achieved value is fixed
                                     c.hit("oracle/violated-step-fixed")
-                                    tolf = TOL * max(1.0, s.nom_at(0)) + goal_slack(s, opts)
+                                    tolf = TOL * max(1.0, s.nom_at(0), abs(float(f_then[i]))) + goal_slack(s, opts)
                                     if abs(f[i] - f_then[i]) > tolf:
                                         c.fail("function value of a violated step moved " + where, desc,
                                                dict(goal=s.describe(), step=i, eps_then=float(eps[i]),
@@ -115,8 +115,9 @@ def check_no_degradation(c, desc, groups, snaps, final, opts, E, n, fixed):
                         else:
                             f0 = S.fvalue(s, res_j[m], 0)
                             f1 = S.fvalue(s, res_l[m], 0)
-                            tol = TOL * max(1.0, s.nom_at(0)) + goal_slack(s, opts)
                             for i in range(len(f0)):
+                                # relative: IPOPT relaxes every bound by 1e-8 * max(1, |bound|)
+                                tol = TOL * max(1.0, s.nom_at(0), abs(float(f0[i]))) + goal_slack(s, opts)
                                 c.count()
                                 c.hit("oracle/min-step")
                                 if f1[i] > f0[i] + tol:
@@ -199,6 +200,11 @@ def gen_case(rng, variant, stream="main"):
         opts["violation_relaxation"] = rng.choice([0.015625, 0.0625])
     if variant == "GP" and stream == "main" and rng.random() < 0.2:
         opts["violation_tolerance"] = rng.choice([0.0, 0.03125, 0.25])
+        # a violated step is retained as the single point f*: a critical goal on the same key would
+        # in general be disjoint from it (known finding F27) -- critical goals get their own key here
+        for s in specs:
+            if s.crit:
+                s.fk = "c%d" % s.uid
     if stream == "f25":
         # goals sharing a key get different nominals (known finding candidate F25)
         seen = {}
